@@ -81,16 +81,34 @@ pub fn roundtrip_generic<T>(text: &str, lossless: bool) -> Result<Items, String>
 where
     T: FromDeb822Paragraph<lossy::Paragraph> + ToDeb822Paragraph<lossy::Paragraph> + FromDeb822Paragraph<Paragraph> + ToDeb822Paragraph<Paragraph>,
 {
+    // the paragraph that to_paragraph() builds must also PRINT to text that reads back to the same fields
+    // (an object can answer its accessors correctly and still print something else)
+    let same = |a: &Items, b: &Items| -> bool {
+        let n = |it: &Items| -> Vec<(String, Vec<String>)> { it.iter().map(|(k, v)| (k.clone(), v.split('\n').map(|l| l.trim().to_string()).filter(|l| !l.is_empty()).collect())).collect() };
+        n(a) == n(b)
+    };
     if lossless {
         let p = lossless_para(text)?;
         let v = <T as FromDeb822Paragraph<Paragraph>>::from_paragraph(&p)?;
         let q: Paragraph = v.to_paragraph();
-        Ok(q.all_items())
+        let items = q.all_items();
+        let printed = q.to_string();
+        let back = lossless_para(&printed).map_err(|e| format!("to_paragraph() prints {:?}, which does not re-read: {}", printed, e))?.all_items();
+        if !same(&back, &items) {
+            return Err(format!("to_paragraph() reports {:?} but prints {:?}, which re-reads as {:?}", items, printed, back));
+        }
+        Ok(items)
     } else {
         let p = lossy_para(text)?;
         let v = <T as FromDeb822Paragraph<lossy::Paragraph>>::from_paragraph(&p)?;
         let q: lossy::Paragraph = v.to_paragraph();
-        Ok(q.all_items())
+        let items = q.all_items();
+        let printed = q.to_string();
+        let back = lossy_para(&printed).map_err(|e| format!("to_paragraph() prints {:?}, which does not re-read: {}", printed, e))?.all_items();
+        if !same(&back, &items) {
+            return Err(format!("to_paragraph() reports {:?} but prints {:?}, which re-reads as {:?}", items, printed, back));
+        }
+        Ok(items)
     }
 }
 
